@@ -258,7 +258,9 @@ class _Follow(set):
         if not isinstance(qualname, str) or "." not in qualname:
             return False
         mod, _, short = qualname.rpartition(".")
-        return short.startswith("_") and not short.startswith("__") and mod in self.modules
+        # helpers of the modules the followed functions live in: private ones, and public ones alike (a function that
+        # a followed function was split into may be given a public name); a stub for the name takes precedence
+        return not short.startswith("__") and mod in self.modules
 
 
 class Interp:
